@@ -330,6 +330,8 @@ unsafe impl Sync for Commands<'_, '_> {}
 
 impl<'w, 's> Commands<'w, 's> {
     #[doc(hidden)] pub fn verif_new(queue: &'s mut CommandQueue, world: &'w World) -> Self { Commands { queue: queue as *mut CommandQueue, entities: &world.entities as *const Entities, _p: PhantomData } }
+    /// Verification aid: the queue this handle writes to.
+    #[doc(hidden)] pub fn verif_queue(&self) -> *const CommandQueue { self.queue as *const CommandQueue }
     pub fn reborrow(&mut self) -> Commands<'w, '_> { Commands { queue: self.queue, entities: self.entities, _p: PhantomData } }
     pub fn queue<C: Command>(&mut self, c: C) { unsafe { (*self.queue).push(c); } }
     pub fn spawn_empty(&mut self) -> EntityCommands<'_> {
@@ -809,6 +811,8 @@ pub mod ecs {
                 pub(crate) unsafe fn world(self) -> &'w crate::World { &*self.world }
                 #[allow(clippy::mut_from_ref)]
                 pub(crate) unsafe fn world_mut(self) -> &'w mut crate::World { &mut *self.world }
+                /// Verification aid: stub systems written in contract modules need the world behind the cell.
+                #[doc(hidden)] #[allow(clippy::mut_from_ref)] pub unsafe fn verif_world_mut(self) -> &'w mut crate::World { &mut *self.world }
             }
         }
         pub mod error { pub type EntityFetchError = crate::EntityFetchErrorImpl; }
@@ -832,7 +836,7 @@ pub mod utils {
     /// without heap growth (CBMC-friendly). Capacity overflow panics (a harness bound, reported as such).
     pub const MAP_CAP: usize = 4;
     pub struct HashMap<K, V> { slots: [Option<(K, V)>; MAP_CAP] }
-    impl<K: Eq, V> Default for HashMap<K, V> { fn default() -> Self { HashMap { slots: [(); MAP_CAP].map(|_| None) } } }
+    impl<K: Eq, V> Default for HashMap<K, V> { fn default() -> Self { HashMap { slots: [None, None, None, None] } } }
     impl<K: Eq, V> HashMap<K, V> {
         pub fn new() -> Self { Self::default() }
         fn pos(&self, k: &K) -> Option<usize> {
